@@ -23,11 +23,14 @@ import tempfile
 from harness import core, gen, histcheck, isoapi
 from harness.props import c01, c05
 
-LEAN_MODULES = ['Pycdlib.Props.C04', 'Pycdlib.Props.C03', 'Pycdlib.Props.TiePack', 'Pycdlib.Props.C17Plan']
+LEAN_MODULES = ['Pycdlib.Props.C04', 'Pycdlib.Props.C03', 'Pycdlib.Props.TiePack', 'Pycdlib.Props.C17Plan', 'Pycdlib.Props.C17Offset']
 THEOREMS = ['Pycdlib.writer_matches_cache', 'Pycdlib.writer_no_straddle', 'Pycdlib.nfScan_append', 'Pycdlib.decDR_encDR',
             'Pycdlib.dr_recalc_tie', 'Pycdlib.dr_recalc_init_tie',
-            'Pycdlib.InPlace.plan_touches_only', 'Pycdlib.InPlace.pvd_copies_identical', 'Pycdlib.InPlace.refused_iff']
-PARTIAL = {'patch_eq_remaster_partial': 'the offset arithmetic (cached next-fit position = writer position) is proved; equality of the '
+            'Pycdlib.InPlace.plan_touches_only', 'Pycdlib.InPlace.pvd_copies_identical', 'Pycdlib.InPlace.refused_iff',
+            'Pycdlib.DirBytes.offset_is_record', 'Pycdlib.DirBytes.render_at_position', 'Pycdlib.DirBytes.positions_eq_place']
+PARTIAL = {'patch_eq_remaster_partial': 'the offset arithmetic (cached next-fit position = writer position) is proved, and at byte level that the bytes found at '
+           'that position of the directory extent ARE the record (offset_is_record, over Model/DirBytes which C03 compares with every '
+           'directory extent of every image); equality of the '
            'patched image with a full re-master is decided per case by the oracle'}
 TRUSTED = ['the independent reader; byte diff of the image file before/after']
 ASSUMPTIONS = []
